@@ -83,6 +83,13 @@ def run_stdio_script(steps: List[Any], *, chunks: Optional[List[Any]] = None,
                         await settle()
                     elif op == "wait":
                         await asyncio.sleep(st[1])
+                    elif op == "pause_reading":
+                        # the application stops consuming the read stream for a while
+                        d1.cancel()
+                        await settle()
+                    elif op == "resume_reading":
+                        d1 = asyncio.create_task(drain(read, out["read"]), name="drain-read")
+                        await settle()
                     elif op == "eof":
                         proc.finish_stdout()
                     elif op == "close_write":
